@@ -10,8 +10,9 @@ package handler
 //
 // This file is package-agnostic: the runner also compiles a copy of it into package
 // rest, where the gates are the ones rest/engine.go wires for a route declared with
-// WithJwt / WithJwtTransition / WithSignature.  The two functions that build the gates,
-//   c18MakeJwtGate(t, cur, prev, passiveCallback, next)  and  c18MakeCsGate(t, keys, tolerance, next),
+// WithJwt / WithJwtTransition / WithSignature.  The two functions that bind it to a package,
+//   c18NextWire(decl)               the wiring (Gates.tla Part 4) the next gate is built with
+//   c18MakeGate(t, wire, g, next)   the gate(s) wire.Decl declares, in front of next
 // live in zz_verif_gates_bind_test.go of each package.
 
 import (
@@ -29,6 +30,7 @@ import (
 	"encoding/pem"
 	"fmt"
 	"io"
+	"math/big"
 	"math/rand"
 	"net/http"
 	"net/http/httptest"
@@ -51,6 +53,26 @@ func c18id(b []byte) string {
 }
 
 func c18b64(b []byte) string { return base64.RawURLEncoding.EncodeToString(b) }
+
+// c18Wire: how a gate is put in front of the protected handler (Gates.tla Part 4; logged with
+// every reset event).  level "handler": the middleware used directly.
+type c18Wire struct {
+	Level string `json:"level"`
+	Chain string `json:"chain"`
+	Use   int    `json:"use"`
+	Ropts bool   `json:"ropts"`
+	Decl  string `json:"decl"`
+}
+
+func (w c18Wire) key() string { return fmt.Sprintf("%s/%s/%d/%v/%s", w.Level, w.Chain, w.Use, w.Ropts, w.Decl) }
+
+// c18GateSpec: the parameters of the gates a route declares.
+type c18GateSpec struct {
+	Cur, Prev string // JWT secrets (Prev "": no previous secret)
+	Callback  bool   // a passive unauthorized callback is installed
+	Keys      []c18KeyFile
+	Tolerance time.Duration
+}
 
 // ---------------------------------------------------------------- JWT
 
@@ -454,6 +476,7 @@ func (e *c18JwtEnv) build(t *testing.T, tok c18Tok, pick *rand.Rand) (hdr string
 
 type c18JwtGate struct {
 	env     *c18JwtEnv
+	wire    c18Wire
 	h       http.Handler
 	calls   int
 	seen    [][]string
@@ -461,24 +484,51 @@ type c18JwtGate struct {
 	probe   []string // claim names the handler looks for in its context (per request)
 }
 
-func (e *c18JwtEnv) newGate(t *testing.T, prev, withCallback bool) *c18JwtGate {
-	g := &c18JwtGate{env: e}
-	prevSecret := ""
-	if prev {
-		prevSecret = e.secrets["prev"]
-	}
-	g.h = c18MakeJwtGate(t, e.secrets["cur"], prevSecret, withCallback, http.HandlerFunc(func(w http.ResponseWriter, r *http.Request) {
-		g.calls++
-		g.seen = [][]string{}
-		for _, k := range g.probe {
-			if v := r.Context().Value(k); v != nil {
-				b, err := json.Marshal(v)
-				if err != nil {
-					b = []byte(fmt.Sprintf("%q", fmt.Sprint(v)))
-				}
-				g.seen = append(g.seen, []string{k, string(b)})
+// c18SeenClaims: what the handler finds in its context under the probed names
+func c18SeenClaims(r *http.Request, probe []string) [][]string {
+	seen := [][]string{}
+	for _, k := range probe {
+		if v := r.Context().Value(k); v != nil {
+			b, err := json.Marshal(v)
+			if err != nil {
+				b = []byte(fmt.Sprintf("%q", fmt.Sprint(v)))
 			}
+			seen = append(seen, []string{k, string(b)})
 		}
+	}
+	return seen
+}
+
+// probeFor: the handler looks for every name that was sent, next to the fixed vocabulary
+func (e *c18JwtEnv) probeFor(sent [][]string) []string {
+	names := map[string]bool{}
+	for _, k := range e.probe {
+		names[k] = true
+	}
+	for _, p := range sent {
+		names[p[0]] = true
+	}
+	probe := make([]string, 0, len(names))
+	for k := range names {
+		probe = append(probe, k)
+	}
+	sort.Strings(probe)
+	return probe
+}
+
+func (e *c18JwtEnv) gateSpec(prev, withCallback bool) c18GateSpec {
+	g := c18GateSpec{Cur: e.secrets["cur"], Callback: withCallback}
+	if prev {
+		g.Prev = e.secrets["prev"]
+	}
+	return g
+}
+
+func (e *c18JwtEnv) newGate(t *testing.T, prev, withCallback bool) *c18JwtGate {
+	g := &c18JwtGate{env: e, wire: c18NextWire("jwt")}
+	g.h = c18MakeGate(t, g.wire, e.gateSpec(prev, withCallback), http.HandlerFunc(func(w http.ResponseWriter, r *http.Request) {
+		g.calls++
+		g.seen = c18SeenClaims(r, g.probe)
 		w.WriteHeader(g.hstatus)
 		io.WriteString(w, "protected content")
 	}))
@@ -487,19 +537,7 @@ func (e *c18JwtEnv) newGate(t *testing.T, prev, withCallback bool) *c18JwtGate {
 
 func (g *c18JwtGate) request(t *testing.T, em *verifEmitter, tok c18Tok, pick *rand.Rand) {
 	hdr, set, sent := g.env.build(t, tok, pick)
-	// the handler looks for every name that was sent, next to the fixed vocabulary
-	names := map[string]bool{}
-	for _, k := range g.env.probe {
-		names[k] = true
-	}
-	for _, p := range sent {
-		names[p[0]] = true
-	}
-	g.probe = g.probe[:0]
-	for k := range names {
-		g.probe = append(g.probe, k)
-	}
-	sort.Strings(g.probe)
+	g.probe = g.env.probeFor(sent)
 	methods := []string{http.MethodGet, http.MethodPost, http.MethodDelete}
 	req := httptest.NewRequest(methods[pick.Intn(len(methods))], "http://localhost/protected?x=1", http.NoBody)
 	if set {
@@ -571,7 +609,7 @@ func TestVerifGatesJwtCases(t *testing.T) {
 				end = len(order)
 			}
 			g := env.newGate(t, prev, r.Intn(2) == 0)
-			em.Emit(verifEv{"e": "reset", "gate": "jwt", "prev": prev})
+			em.Emit(verifEv{"e": "reset", "gate": "jwt", "prev": prev, "wire": g.wire})
 			for _, i := range order[at:end] {
 				if r.Intn(6) == 0 {
 					d := []int{1, 7, 25}[r.Intn(3)]
@@ -604,7 +642,7 @@ func TestVerifGatesJwtSeq(t *testing.T) {
 			t.Fatal(err)
 		}
 		g := env.newGate(t, s.Prev, false)
-		em.Emit(verifEv{"e": "reset", "gate": "jwt", "prev": s.Prev})
+		em.Emit(verifEv{"e": "reset", "gate": "jwt", "prev": s.Prev, "wire": g.wire})
 		for _, op := range s.Ops {
 			switch op.Op {
 			case "tick":
@@ -638,10 +676,31 @@ type c18Cs struct {
 	Spath   string `json:"spath"`
 	Squery  string `json:"squery"`
 	Sbody   string `json:"sbody"`
+	Off     c18Off `json:"off"`
 	Plen    int    `json:"plen"`
 	Rlen    int    `json:"rlen"`
 	Chunks  int    `json:"chunks"`
+	Wp      []string `json:"wp"`
 	Xfer    string `json:"xfer"`
+}
+
+// c18Off: a timestamp s*m*2^k + j*(tolerance-120) seconds from the clock (Gates!Offs)
+type c18Off struct {
+	S int `json:"s"`
+	M int `json:"m"`
+	K int `json:"k"`
+	J int `json:"j"`
+}
+
+func c18ParseCs(t *testing.T, raw json.RawMessage) c18Cs {
+	var c c18Cs
+	if err := json.Unmarshal(raw, &c); err != nil {
+		t.Fatal(err)
+	}
+	if c.Wp == nil {
+		c.Wp = []string{}
+	}
+	return c
 }
 
 type c18RsaPair struct {
@@ -656,20 +715,81 @@ type c18KeyFile struct {
 }
 
 type c18CsEnv struct {
-	rng        *rand.Rand
-	keys       map[string]*c18RsaPair // A, B configured; other: not configured
-	h          http.Handler
-	calls      int
-	hbody      string
-	hstatus    int
-	rpay       []byte
-	chunks     int
+	rng     *rand.Rand
+	keys    map[string]*c18RsaPair // A, B configured; other: not configured
+	files   []c18KeyFile
+	next    http.Handler
+	gates   map[string]http.Handler // per wiring (the gate is stateless)
+	wire    c18Wire
+	h       http.Handler
+	calls   int
+	hbody   string
+	hstatus int
+	rpay    []byte
+	chunks  int
+	wp      []string
+	wrote   []byte              // every byte passed to Write, copied when the call was made
+	onCall  func(*http.Request) // extra observation when the protected handler runs
+}
+
+// useWire: the gate under the given wiring (built once per wiring and declaration)
+func (e *c18CsEnv) useWire(t *testing.T, w c18Wire, g c18GateSpec) {
+	g.Keys, g.Tolerance = e.files, c18Tolerance
+	k := w.key() + "|" + g.Cur + "|" + g.Prev
+	h, ok := e.gates[k]
+	if !ok {
+		h = c18MakeGate(t, w, g, e.next)
+		e.gates[k] = h
+	}
+	e.wire, e.h = w, h
+}
+
+// respond: the protected handler produces its response.  Without a program: rpay from a private
+// slice in one or two calls.  With one (Gates!WOps): a buffer the handler owns and reuses.
+func (e *c18CsEnv) respond(w http.ResponseWriter) {
+	write := func(p []byte) {
+		e.wrote = append(e.wrote, p...)
+		w.Write(p)
+	}
+	if len(e.wp) == 0 {
+		if e.chunks <= 1 || len(e.rpay) < 2 {
+			write(e.rpay)
+		} else {
+			cut := len(e.rpay) / 2
+			write(e.rpay[:cut])
+			write(e.rpay[cut:])
+		}
+		return
+	}
+	buf := make([]byte, len(e.rpay), len(e.rpay)+e.rng.Intn(64))
+	for _, op := range e.wp {
+		switch op {
+		case "fill":
+			e.rng.Read(buf)
+		case "scribble":
+			for i := range buf {
+				buf[i] ^= 0xa5
+			}
+		case "write":
+			write(buf)
+		case "wpriv":
+			p := make([]byte, 1+e.rng.Intn(2*len(buf)+2))
+			e.rng.Read(p)
+			write(p)
+		case "wempty":
+			write(buf[:0])
+		case "flush":
+			if f, ok := w.(http.Flusher); ok {
+				f.Flush()
+			}
+		}
+	}
 }
 
 const c18Tolerance = time.Hour
 
 func c18NewCsEnv(t *testing.T, r *rand.Rand) *c18CsEnv {
-	e := &c18CsEnv{rng: r, keys: map[string]*c18RsaPair{}}
+	e := &c18CsEnv{rng: r, keys: map[string]*c18RsaPair{}, gates: map[string]http.Handler{}}
 	dir := t.TempDir()
 	var files []c18KeyFile
 	for _, name := range []string{"A", "B", "other"} {
@@ -690,8 +810,12 @@ func c18NewCsEnv(t *testing.T, r *rand.Rand) *c18CsEnv {
 		}
 		files = append(files, c18KeyFile{Fp: p.fp, File: file})
 	}
-	next := http.HandlerFunc(func(w http.ResponseWriter, req *http.Request) {
+	e.files = files
+	e.next = http.HandlerFunc(func(w http.ResponseWriter, req *http.Request) {
 		e.calls++
+		if e.onCall != nil {
+			e.onCall(req)
+		}
 		b, err := io.ReadAll(req.Body)
 		if err != nil {
 			e.hbody = "readerror"
@@ -699,15 +823,8 @@ func c18NewCsEnv(t *testing.T, r *rand.Rand) *c18CsEnv {
 			e.hbody = c18id(b)
 		}
 		w.WriteHeader(e.hstatus)
-		if e.chunks <= 1 || len(e.rpay) < 2 {
-			w.Write(e.rpay)
-		} else {
-			cut := len(e.rpay) / 2
-			w.Write(e.rpay[:cut])
-			w.Write(e.rpay[cut:])
-		}
+		e.respond(w)
 	})
-	e.h = c18MakeCsGate(t, files, c18Tolerance, next)
 	return e
 }
 
@@ -792,9 +909,16 @@ func c18RsaEncrypt(pub *rsa.PublicKey, msg []byte) []byte {
 	return out
 }
 
-func (e *c18CsEnv) tsString(cls string, now int64) string {
+func (e *c18CsEnv) tsString(cls string, off c18Off, now int64) string {
 	tol := int64(c18Tolerance / time.Second)
 	switch cls {
+	case "off":
+		// now + s*m*2^k + j*(tol-120), exactly, as a decimal integer of whatever size
+		v := new(big.Int).Lsh(big.NewInt(int64(off.M)), uint(off.K))
+		v.Mul(v, big.NewInt(int64(off.S)))
+		v.Add(v, big.NewInt(int64(off.J)*(tol-120)))
+		v.Add(v, big.NewInt(now))
+		return v.String()
 	case "in":
 		return strconv.FormatInt(now, 10)
 	case "in2":
@@ -866,7 +990,23 @@ func (e *c18CsEnv) wireBody(sym, typ string, key, payload []byte) (wire, plain [
 	return plain, plain
 }
 
+// c18CsShot: one concretised signed request and what the client needs to read the answer
+type c18CsShot struct {
+	req         *http.Request
+	key         []byte
+	wire, plain []byte
+}
+
 func (e *c18CsEnv) run(t *testing.T, em *verifEmitter, c c18Cs) {
+	s := e.prepare(c)
+	rec := httptest.NewRecorder()
+	status := c18Serve(e.h, rec, s.req)
+	em.Emit(verifEv{"e": "cs", "req": c, "calls": e.calls, "status": status, "hstatus": e.hstatus,
+		"o": e.observe(s, rec)})
+}
+
+// prepare concretises the symbolic request and arms the protected handler for it.
+func (e *c18CsEnv) prepare(c c18Cs) *c18CsShot {
 	r := e.rng
 	key := make([]byte, []int{16, 24, 32}[r.Intn(3)])
 	r.Read(key)
@@ -877,13 +1017,15 @@ func (e *c18CsEnv) run(t *testing.T, em *verifEmitter, c c18Cs) {
 	e.rpay = make([]byte, c.Rlen)
 	r.Read(e.rpay)
 	e.chunks = c.Chunks
+	e.wp = c.Wp
+	e.wrote = e.wrote[:0]
 	e.hstatus = []int{200, 201, 202}[r.Intn(3)]
 	now := time.Now().Unix()
 
 	wire, plain := e.wireBody(c.Body, c.Type, key, payload)
 	swire, _ := e.wireBody(c.Sbody, c.Type, key, payload)
 	digest := func(b []byte) string { s := sha256.Sum256(b); return fmt.Sprintf("%x", s[:]) }
-	content := strings.Join([]string{e.tsString(c.Sts, now), c.Smethod, c18Path(c.Spath), c18Query(c.Squery), digest(swire)}, "\n")
+	content := strings.Join([]string{e.tsString(c.Sts, c.Off, now), c.Smethod, c18Path(c.Spath), c18Query(c.Squery), digest(swire)}, "\n")
 	mac := func(k []byte) []byte { m := hmac.New(sha256.New, k); m.Write([]byte(content)); return m.Sum(nil) }
 	sigBytes := mac(key)
 	sig := base64.StdEncoding.EncodeToString(sigBytes)
@@ -934,7 +1076,7 @@ func (e *c18CsEnv) run(t *testing.T, em *verifEmitter, c c18Cs) {
 	}
 	attrs = append(attrs, "key="+k64)
 	if c.Swf != "noTime" {
-		attrs = append(attrs, "time="+e.tsString(c.Ts, now))
+		attrs = append(attrs, "time="+e.tsString(c.Ts, c.Off, now))
 	}
 	secretPlain := []byte(strings.Join(attrs, "; "))
 	var secret string
@@ -986,18 +1128,25 @@ func (e *c18CsEnv) run(t *testing.T, em *verifEmitter, c c18Cs) {
 	}
 	e.calls = 0
 	e.hbody = "-"
-	rec := httptest.NewRecorder()
-	status := c18Serve(e.h, rec, req)
+	return &c18CsShot{req: req, key: key, wire: wire, plain: plain}
+}
+
+// observe: the identities Gates!RoundTrip is about.  rpay is what the handler passed to Write
+// (copied call by call); when it did not run, what it would have written without a program.
+func (e *c18CsEnv) observe(s *c18CsShot, rec *httptest.ResponseRecorder) map[string]string {
 	rraw := rec.Body.Bytes()
 	rdec := "fail"
 	if ct, err := base64.StdEncoding.DecodeString(string(rraw)); err == nil {
-		if p, ok := c18EcbDecrypt(key, ct); ok {
+		if p, ok := c18EcbDecrypt(s.key, ct); ok {
 			rdec = c18id(p)
 		}
 	}
-	em.Emit(verifEv{"e": "cs", "req": c, "calls": e.calls, "status": status, "hstatus": e.hstatus,
-		"o": map[string]string{"wire": c18id(wire), "payload": c18id(plain), "hbody": e.hbody,
-			"rpay": c18id(e.rpay), "rraw": c18id(rraw), "rdec": rdec}})
+	rpay := e.rpay
+	if e.calls > 0 {
+		rpay = e.wrote
+	}
+	return map[string]string{"wire": c18id(s.wire), "payload": c18id(s.plain), "hbody": e.hbody,
+		"rpay": c18id(rpay), "rraw": c18id(rraw), "rdec": rdec}
 }
 
 // TestVerifGatesCs: every symbolic signed request, concretised, through the strict handler.
@@ -1014,12 +1163,10 @@ func TestVerifGatesCs(t *testing.T) {
 	chunk := verifEnvInt("VERIF_C18_CHUNK", 48)
 	order := r.Perm(len(in))
 	for n, i := range order {
-		var c c18Cs
-		if err := json.Unmarshal(in[i], &c); err != nil {
-			t.Fatal(err)
-		}
+		c := c18ParseCs(t, in[i])
 		if n%chunk == 0 {
-			em.Emit(verifEv{"e": "reset", "gate": "cs", "prev": false})
+			env.useWire(t, c18NextWire("cs"), c18GateSpec{})
+			em.Emit(verifEv{"e": "reset", "gate": "cs", "prev": false, "wire": env.wire})
 		}
 		env.run(t, em, c)
 	}
